@@ -46,20 +46,36 @@ def gen_case(rng, supervised):
   else:
     idx, lab = gen.pairs_from(rng, X, y, int(rng.integers(6, 16)))
     pairs = X[idx]
-  M0 = _initialize_metric_mahalanobis(pairs, prior, random_state=seed, strict_pd=True, matrix_name='prior')
-  P0 = np.linalg.inv(M0)
+  region = str(rng.choice(['pd', 'pd', 'pd', 'not_pd', 'mostly_dissimilar']))
+  if region == 'mostly_dissimilar' and not supervised:
+    # every direction dominated by dissimilar pairs (an input matrix with several negative eigenvalues)
+    lab = np.where(rng.random(len(lab)) < 0.2, 1, -1)
+    lab[0], lab[1] = 1, -1
+  # the DOCUMENTED prior, computed without the library (identity; inverse covariance of the DISTINCT points of the pairs;
+  # the array itself); only the 'random' prior, documented as "a random SPD matrix", is read from the library's generator
+  pts = np.unique(np.vstack(pairs), axis=0)
+  if prior_kind == 'identity':
+    M0 = np.eye(d); P0 = np.eye(d)
+  elif prior_kind == 'covariance':
+    P0 = np.atleast_2d(np.cov(pts, rowvar=False)); M0 = np.linalg.inv(P0)
+  elif prior_kind == 'array':
+    M0 = prior.copy(); P0 = np.linalg.inv(M0)
+  else:
+    M0 = _initialize_metric_mahalanobis(pairs.copy(), prior, random_state=seed, strict_pd=True, matrix_name='prior')
+    P0 = np.linalg.inv(M0)
   V = pairs[:, 0] - pairs[:, 1]
   loss = (V.T * lab).dot(V)
-  region = str(rng.choice(['pd', 'pd', 'pd', 'not_pd']))
   lam_neg = max(1e-12, -np.linalg.eigvalsh(loss).min())
   if region == 'pd':
     balance = float(2.0 ** np.floor(np.log2(0.5 * np.linalg.eigvalsh(P0).min() / lam_neg))) if lam_neg > 1e-9 else 0.5
     balance = min(balance, 0.5)
+  elif region == 'mostly_dissimilar':
+    balance = float(rng.choice([0.25, 2.0, 16.0])) * float(2.0 ** np.ceil(np.log2(np.linalg.eigvalsh(P0).max() / lam_neg)))
   else:
     balance = float(2.0 ** np.ceil(np.log2(4.0 * np.linalg.eigvalsh(P0).max() / lam_neg)))
   E = P0 + balance * loss
   ev = {'ev': 'SdmlFit', 'supervised': bool(supervised), 'prior_kind': prior_kind, 'region': region, 'exc': '',
-        'M0': dym(M0), 'P0': dym(P0), 'v': dym(V), 'y': [int(v) for v in lab], 'balance': dy(balance), 'alpha': dy(alpha),
+        'M0': dym(M0), 'P0': dym(P0), 'pts': dym(pts) if prior_kind == 'covariance' else [], 'v': dym(V), 'y': [int(v) for v in lab], 'balance': dy(balance), 'alpha': dy(alpha),
         'L': [], 'cholM': [], 'cholE': [], 'has_cholE': False, 'W': [], 'cholW': [], 'has_W': False, 'logsM': [], 'logsW': []}
   RE = chol_or_none(E)
   if RE is not None:
@@ -110,11 +126,12 @@ def run(ctx):
   ctx.model('MC_SDML', 'MC_SDML.cfg', workers=4)
   rng = np.random.default_rng(ctx.seed + 13)
   rs = []
-  for i in range(8 if ctx.quick else 48):
+  for i in range(16 if ctx.quick else 64):
     rs.append(dict(supervised=bool(i % 2), n=5 if ctx.quick else 10, seed=int(rng.integers(1 << 30))))
   ctx.rule = ('random labelled pair sets x priors {identity, covariance, random, SPD array} x sparsity_param in {0.01, 0.05, '
-              '0.25, 1} x balance_param chosen inside (3/4 of the cases) or outside the region where the graphical-lasso '
-              'input is positive definite; SDML and SDML_Supervised; distinct by event content; non-trivial = a case with '
+              '0.25, 1} x balance_param chosen inside (3/5 of the cases) or outside the region where the graphical-lasso '
+              'input is positive definite (one negative direction / mostly dissimilar pairs: several negative directions) '
+              'SDML and SDML_Supervised; distinct by event content; non-trivial = a case with '
               'a verified dual-feasible witness')
   pairs = core.generate(MOD, rs)
   core.judge(ctx, *SPEC, pairs, signature_of)
